@@ -244,12 +244,17 @@ class ProtocolSuite(common.Suite):
                 top.max_attempts = 1
             tops[e["name"]] = top
             mc.add_move(top, criteria=crit, name=e["name"])
+            if (k + len(case["trials"])) % 3 == 1:
+                # the entry is added AGAIN under its name, with another explicit criteria: that one decides from now on
+                cb = BareCriteria(500 + k)
+                crits[e["name"]] = cb
+                mc.add_move(top, criteria=StrictCriteria(cb, log), name=e["name"])
         current = [None]
         mc.yield_moves = lambda: iter([current[0]])
         with warnings.catch_warnings():
             warnings.simplefilter("ignore")
             mc.validate_simulation()
-        out = {"setup_log": [list(x) for x in log], "trials": []}
+        out = {"setup_log": [list(x) for x in log], "trials": [], "crit_uid": {n: c.uid for n, c in crits.items()}}
         del log[:]
         for kt, tr in enumerate(case["trials"]):
             late = case.get("late")
@@ -343,6 +348,10 @@ class ProtocolSuite(common.Suite):
                 truthy = any(t["effective_truthy"])  # a repeated object returns its last scripted result
                 if truthy and len(evals) != 1:
                     out.append((f"protocol:truthy-not-evaluated:{ens}", f"trial {k}: {len(evals)} evaluate calls"))
+                want_uid = obs.get("crit_uid", {}).get(tr["name"])
+                if truthy and len(evals) == 1 and want_uid is not None and evals[0][1] != want_uid and tr["name"] != (case.get("late") or {}).get("name"):
+                    out.append((f"protocol:wrong-criteria-evaluated:{ens}",
+                                f"trial {k}: criteria {evals[0][1]} was asked, the entry's explicit criteria is {want_uid}"))
                 if not truthy and (evals or t["history"] != "None"):
                     out.append((f"protocol:falsy-not-recorded-as-not-attempted:{ens}", f"trial {k}: history {t['history']}, {len(evals)} evaluate"))
                 if truthy and t["history"] != str(bool(tr["verdict"])):
@@ -420,7 +429,9 @@ class TraceTie(ProtocolSuite):
             notes = [x for x in t["log"] if x[2] == "on_atoms_changed"]
             added = notes[0][3] if notes else []
             removed = notes[0][4] if notes else []
-            crit = 100 + case["entries"].index(e)
+            k_e = case["entries"].index(e)
+            # the entry's explicit criteria: the one of its LAST add_move (an entry may be added again under its name)
+            crit = (500 if (k_e + len(case["trials"])) % 3 == 1 else 100) + k_e
             lines.append(" ".join(["p20", case["ens"], ",".join(map(str, order)) or "-", str(e["users"][0]), str(crit),
                                    str(int(tr["truthy"][0])), str(int(tr["verdict"])),
                                    ",".join(map(str, added)) or "-", ",".join(map(str, removed)) or "-",
